@@ -4,6 +4,8 @@ cd "$(dirname "$0")"
 P=$(realpath "$1"); C=$2; T=${3:-quick}
 [ -z "$(git -C /repo status --porcelain)" ] || { echo "/repo not clean"; exit 3; }
 git -C /repo apply "$P" || exit 3
-trap 'git -C /repo checkout -- . ; git -C /repo clean -fdq' EXIT
+# the evidence file must describe the unchanged tree: keep the current one aside and put it back
+E=evidence/$C.json; B=$(mktemp); [ -f $E ] && cp $E $B
+trap 'git -C /repo checkout -- . ; git -C /repo clean -fdq; [ -s $B ] && cp $B $E; rm -f $B' EXIT
 ./run "$C" "$T" 2>&1 | tail -${TAILN:-4}
 echo "exit=${PIPESTATUS[0]}"
